@@ -6,7 +6,7 @@ import itertools
 
 from .. import automata as A
 from .. import blocks, e1, impl, linelang, refmodel
-from ..chartgen import FORMAT_TRAPS, UNICODE_TRAPS, mk
+from ..chartgen import FORMAT_TRAPS, RAW, UNICODE_TRAPS, mk
 from ..linelang import BL
 
 ID = "C09"
@@ -104,8 +104,8 @@ def check_line(ctx, order, line, why):
         ctx.violation("classification", dict(kind="line", line=line, expected_kind=exp[0], expected=exp[1]), "%s: line %r is claimed by %s with %r; expected %s %r" % (why, line, gk, got, exp[0], exp[1]), expected=list(exp), observed=[gk, got], script=SCRIPT.format(line=line, kind=exp[0], expected=exp[1], order=names))
 
 
-def check_e2e(ctx, lines, why, sync=("0 = TS 4", "0 = B 1000000000")):
-    text = mk(res=960, sync=list(sync), events=lines)
+def check_e2e(ctx, lines, why, sync=("0 = TS 4", "0 = B 1000000000"), song_extra=()):
+    text = mk(res=960, sync=list(sync), events=lines, song_extra=list(song_extra))
     try:
         res = refmodel.model(text)
     except refmodel.OutOfDomain:
@@ -212,7 +212,7 @@ def _orders(ctx):
             check_e2e(ctx, list(perm), "line order")
     # lines of none of the three kinds between / after classified ones: they land in no list and do
     # not disturb the lines around them
-    strays = ["garbage", "", "0 = E solo", "7 = B 120000", '8 = E "unterminated', "= E \"x\""]
+    strays = ["garbage", "", RAW + "", RAW + "   ", "0 = E solo", "7 = B 120000", '8 = E "unterminated', "= E \"x\""]
     for good in pool[:4]:
         for st in strays:
             for body in ([good, st], [st, good], [good, st, st], [pool[0], good, st, pool[2]], [good, st, pool[1], st]):
@@ -226,6 +226,11 @@ def _orders(ctx):
                 line = '960 = E "%s"' % (tmpl % (kw, inn))
                 check_line(ctx, _order(), line, "text quoting an event line")
                 check_e2e(ctx, [pool[0], line, pool[1]], "text quoting an event line")
+    # empty lines in the sections IN FRONT of [Events] (a splitter that miscounts lines hands [Events] a shifted body)
+    for k in (1, 2, 3):
+        check_e2e(ctx, list(pool), "%d empty line(s) inside [Song]" % k, song_extra=[RAW + ""] * k)
+        check_e2e(ctx, list(pool), "%d empty line(s) inside [SyncTrack]" % k, sync=("0 = TS 4",) + (RAW + "",) * k + ("0 = B 1000000000",))
+        check_e2e(ctx, list(pool[:3]) + [RAW + ""] * k + list(pool[3:]), "%d empty line(s) inside [Events]" % k, song_extra=[RAW + "", 'Name = "n"'])
     # identical lines repeated (each occurrence is its own event)
     for a_ in pool[:3]:
         for b_ in pool[:3]:
